@@ -206,3 +206,12 @@ pub fn mode_data(ctx: &mut Ctx, len: usize) -> (Vec<u8>, &'static str) {
     }
     (d, c)
 }
+
+/// flavour for this history; a small slice makes sure BelT-CTR (one flavour of seven, in one
+/// block size only) gets its share
+pub fn pick_flavor(ctx: &mut Ctx, fls: &[Flavor]) -> Flavor {
+    if ctx.tier == crate::ctx::Tier::Slice && fls.contains(&Flavor::Belt) && ctx.rng.chance(1, 3) {
+        return Flavor::Belt;
+    }
+    *ctx.rng.pick(fls)
+}
